@@ -452,6 +452,9 @@ func scenarios(tier string, yield func(any) bool) {
 		// completions may wedge the loop whatever they are
 		modes = []Scn{{Mode: "readk", K: 1}, {Mode: "readk", K: 2}, {Mode: "echo"}}
 		scripts = []string{"BAAA", "BAAAqA", "ABBB", "AABBB", "BAAAB", "ABAAqB"}
+		if tier != "thorough" {
+			modes, scripts = modes[:2], []string{"BAAA", "ABBB", "BAAAqA"}
+		}
 	}
 	if os.Getenv("VERIF_C09_SUBSET") == "" {
 		// datagrams of every size up to the receive buffer reach the connection: the largest
@@ -485,6 +488,9 @@ func scenarios(tier string, yield func(any) bool) {
 }
 
 func bounds(tier string) explore.Bounds {
+	if os.Getenv("VERIF_C09_SUBSET") == "smallchan" {
+		tier = "thorough" // few, short scripts: the full deviation budget in both tiers
+	}
 	b := explore.DefaultBounds(2)
 	b[explore.KSched] = 4
 	b[explore.KSelect] = 3 // a select taking a later ready case counts against the joint budget
@@ -502,6 +508,9 @@ func bounds(tier string) explore.Bounds {
 }
 
 func total(tier string) int {
+	if os.Getenv("VERIF_C09_SUBSET") == "smallchan" {
+		tier = "thorough"
+	}
 	if v := os.Getenv("VERIF_T"); v != "" {
 		var t int
 		fmt.Sscanf(v, "%d", &t)
@@ -518,6 +527,9 @@ var deep = map[string]bool{"AIAA": true, "AqAA": true, "AAqA": true, "AIqA": tru
 
 // totalFor: the joint deviation budget (preemptions + early timers + pool misses) of a script.
 func totalFor(tier, script string) int {
+	if os.Getenv("VERIF_C09_SUBSET") == "smallchan" {
+		tier = "thorough"
+	}
 	t := total(tier)
 	n := strings.Count(script, "A") + strings.Count(script, "B")
 	switch {
